@@ -77,11 +77,14 @@ def install(it):
 # ---- ndarray model --------------------------------------------------------------------------------------
 
 class NDArr(PyNative):
-    """A dense array of exact numbers (nested lists) with numpy's basic indexing."""
+    """A dense array of exact numbers with numpy's basic indexing. Basic indexing (ints and slices) gives *views* that share the
+    storage of the array they were taken from, as in numpy: `a[:, 0], a[:, 1] = a[:, 1], a[:, 0]` does not swap columns."""
 
-    def __init__(self, data, shape=None):
+    def __init__(self, data, shape=None, _base=None, _offset=0, _strides=None):
+        if _base is not None:
+            self._base, self._offset, self.shape, self._strides = _base, _offset, tuple(shape), tuple(_strides)
+            return
         data = _plain(data)
-        self.data = data
         if shape is None:
             shape = []
             d = data
@@ -90,6 +93,41 @@ class NDArr(PyNative):
                 d = d[0] if d else None
             shape = tuple(shape)
         self.shape = tuple(shape)
+        flat = []
+
+        def walk(d):
+            if isinstance(d, list):
+                for x in d:
+                    walk(x)
+            else:
+                flat.append(d)
+        walk(data)
+        n = 1
+        for k in self.shape:
+            n *= k
+        if len(flat) != n:
+            raise ValueError(f"setting an array element with a sequence: {len(flat)} values for shape {self.shape} (inhomogeneous)")
+        self._base = flat
+        self._offset = 0
+        self._strides = _row_major(self.shape)
+
+    # ---- storage ----
+    def _positions(self):
+        """storage positions of the elements in row-major order of this view"""
+        pos = [self._offset]
+        for n, st in zip(self.shape, self._strides):
+            pos = [p_ + i * st for p_ in pos for i in range(n)]
+        return pos
+
+    @property
+    def data(self):
+        return _rebuild(self.flat(), self.shape) if self.shape else self._base[self._offset]
+
+    @data.setter
+    def data(self, nested):
+        vals = NDArr(nested).flat() if isinstance(nested, (list, NDArr)) else [nested]
+        for p_, v in zip(self._positions(), vals):
+            self._base[p_] = v
 
     @property
     def ndim(self):
@@ -98,111 +136,79 @@ class NDArr(PyNative):
     @property
     def size(self):
         n = 1
-        for s in self.shape:
-            n *= s
+        for s_ in self.shape:
+            n *= s_
         return n
 
     def flat(self):
-        out = []
-
-        def walk(d):
-            if isinstance(d, list):
-                for x in d:
-                    walk(x)
-            else:
-                out.append(d)
-        walk(self.data)
-        return out
+        return [self._base[p_] for p_ in self._positions()]
 
     def __len__(self):
+        if not self.shape:
+            raise TypeError("len() of unsized object")
         return self.shape[0]
 
     def __iter__(self):
         for i in range(self.shape[0]):
             yield self[i]
 
-    def __getitem__(self, idx):
+    def _select(self, idx):
         if not isinstance(idx, tuple):
             idx = (idx,)
+        if any(i is None or i is Ellipsis for i in idx):
+            raise IndexError("newaxis / Ellipsis are not modelled")
         if len(idx) > len(self.shape):
             raise IndexError("too many indices for array")
         idx = tuple(idx) + (slice(None),) * (len(self.shape) - len(idx))
-
-        def take(d, k, shape):
-            if k == len(idx):
-                return d, ()
-            i = idx[k]
-            n = shape[0]
+        off, shp, strd = self._offset, [], []
+        for k, (i, n, st) in enumerate(zip(idx, self.shape, self._strides)):
             if isinstance(i, slice):
-                rows = [take(d[j], k + 1, shape[1:]) for j in range(*i.indices(n))]
-                sub = rows[0][1] if rows else tuple(_sliced_shape(idx[k + 1:], shape[1:]))
-                return [r[0] for r in rows], (len(rows),) + tuple(sub)
-            if isinstance(i, bool) or not isinstance(i, int):
-                raise IndexError(f"unsupported index {i!r}")
-            if not -n <= i < n:
-                raise IndexError(f"index {i} is out of bounds for axis {k} with size {n}")
-            return take(d[i], k + 1, shape[1:])
-
-        d, shp = take(self.data, 0, self.shape)
-        if shp == ():
-            return d
-        return NDArr(d, shp)
-
-    def copy(self):
-        import copy
-        return NDArr(copy.deepcopy(self.data), self.shape)
-
-    def __setitem__(self, idx, value):
-        """Basic indexing assignment (ints and slices); the value is a scalar or an array of the selected shape (leading axes of length 1 may be missing)."""
-        if not isinstance(idx, tuple):
-            idx = (idx,)
-        if len(idx) > len(self.shape):
-            raise IndexError("too many indices for array")
-        idx = tuple(idx) + (slice(None),) * (len(self.shape) - len(idx))
-        sel_shape = tuple(_sliced_shape(idx, self.shape))
-        if isinstance(value, NDArr):
-            vshape = tuple(value.shape)
-            while len(vshape) < len(sel_shape):
-                vshape = (1,) + vshape
-            lead = len(vshape) - len(sel_shape)
-            if lead > 0 and all(n == 1 for n in vshape[:lead]):
-                vshape = vshape[lead:]
-            if any(a != b and a != 1 for a, b in zip(vshape, sel_shape)) or len(vshape) != len(sel_shape):
-                raise ValueError(f"could not broadcast input array from shape {value.shape} into shape {sel_shape}")
-            flat = value.flat()
-
-            def at(pos):
-                k = 0
-                for p_, n in zip(pos, vshape):
-                    k = k * n + (p_ if n != 1 else 0)
-                return flat[k]
-        elif isinstance(value, (list, tuple)):
-            return self.__setitem__(idx, NDArr(list(value)))
-        else:
-            def at(pos):
-                return value
-
-        def put(d, k, shape, pos):
-            i = idx[k]
-            n = shape[0]
-            last = k == len(idx) - 1
-            if isinstance(i, slice):
-                for c, j in enumerate(range(*i.indices(n))):
-                    if last:
-                        d[j] = at(pos + (c,))
-                    else:
-                        put(d[j], k + 1, shape[1:], pos + (c,))
+                r = range(*i.indices(n))
+                off += (r.start if len(r) else 0) * st
+                shp.append(len(r))
+                strd.append(st * r.step)
             else:
                 if isinstance(i, bool) or not isinstance(i, int):
                     raise IndexError(f"unsupported index {i!r}")
                 if not -n <= i < n:
                     raise IndexError(f"index {i} is out of bounds for axis {k} with size {n}")
-                if last:
-                    d[i] = at(pos)
-                else:
-                    put(d[i], k + 1, shape[1:], pos)
-        if self.shape:
-            put(self.data, 0, self.shape, ())
+                off += (i % n if n else 0) * st
+        return off, tuple(shp), tuple(strd)
+
+    def __getitem__(self, idx):
+        off, shp, strd = self._select(idx)
+        if shp == ():
+            return self._base[off]
+        return NDArr(None, shp, _base=self._base, _offset=off, _strides=strd)
+
+    def copy(self):
+        return NDArr(_rebuild(self.flat(), self.shape), self.shape)
+
+    def __setitem__(self, idx, value):
+        """Basic indexing assignment; the value is a scalar or an array broadcastable to the selection (values are read before anything is written)."""
+        off, shp, strd = self._select(idx)
+        target = NDArr(None, shp, _base=self._base, _offset=off, _strides=strd)
+        pos = target._positions()
+        if isinstance(value, (list, tuple)):
+            value = NDArr(list(value))
+        if isinstance(value, NDArr):
+            vshape = tuple(value.shape)
+            while len(vshape) > len(shp) and vshape and vshape[0] == 1:
+                vshape = vshape[1:]
+            while len(vshape) < len(shp):
+                vshape = (1,) + vshape
+            if len(vshape) != len(shp) or any(a != b and a != 1 for a, b in zip(vshape, shp)):
+                raise ValueError(f"could not broadcast input array from shape {value.shape} into shape {shp}")
+            flat = value.flat()
+            vstr = _row_major(vshape)
+            vals = []
+            for multi in _multi_indices(shp):
+                k = sum((m_ if n != 1 else 0) * st for m_, n, st in zip(multi, vshape, vstr))
+                vals.append(flat[k])
+        else:
+            vals = [value] * len(pos)
+        for p_, v in zip(pos, vals):
+            self._base[p_] = v
 
     # ---- elementwise arithmetic (same shape, or a scalar) ----
     def _ew(self, o, fn):
@@ -254,10 +260,7 @@ class NDArr(PyNative):
 
     @property
     def T(self):
-        if self.ndim != 2:
-            raise ValueError("transpose of a non-matrix not modelled")
-        r, c = self.shape
-        return NDArr([[self.data[i][j] for i in range(r)] for j in range(c)], (c, r))
+        return NDArr(None, tuple(reversed(self.shape)), _base=self._base, _offset=self._offset, _strides=tuple(reversed(self._strides)))
 
     def __eq__(self, o):
         return isinstance(o, NDArr) and o.shape == self.shape and o.flat() == self.flat()
@@ -270,8 +273,7 @@ class NDArr(PyNative):
         return repr(self.flat()).encode()
 
     def tolist(self):
-        import copy
-        return copy.deepcopy(self.data)
+        return _rebuild(self.flat(), self.shape) if self.shape else self._base[self._offset]
 
     def _render(self):
         """numpy's printing: 8 significant digits, elision beyond 1000 elements."""
@@ -285,6 +287,21 @@ class NDArr(PyNative):
 
     def __str__(self):
         return self._render()
+
+
+def _row_major(shape):
+    out, acc = [], 1
+    for n in reversed(shape):
+        out.append(acc)
+        acc *= n
+    return tuple(reversed(out))
+
+
+def _multi_indices(shape):
+    out = [()]
+    for n in shape:
+        out = [m_ + (i,) for m_ in out for i in range(n)]
+    return out
 
 
 def _plain(d):
@@ -377,9 +394,9 @@ def install_arrays(it):
     it.overrides["np.zeros"] = _PyCall(lambda shape, **k: full(shape, 0))
     it.overrides["np.ones"] = _PyCall(lambda shape, **k: full(shape, 1))
     it.overrides["np.eye"] = _PyCall(lambda n, **k: NDArr([[1 if i == j else 0 for j in range(n)] for i in range(n)], (n, n)))
-    it.overrides["np.array"] = _PyCall(lambda x, **k: x if isinstance(x, NDArr) else NDArr(x))
-    it.overrides["np.asarray"] = it.overrides["np.array"]
-    it.overrides["np.ascontiguousarray"] = it.overrides["np.array"]
+    it.overrides["np.array"] = _PyCall(lambda x, **k: x.copy() if isinstance(x, NDArr) else NDArr(x))  # np.array copies
+    it.overrides["np.asarray"] = _PyCall(lambda x, **k: x if isinstance(x, NDArr) else NDArr(x))  # np.asarray does not
+    it.overrides["np.ascontiguousarray"] = it.overrides["np.asarray"]
     it.overrides["np.dot"] = _PyCall(dot)
     it.overrides["np.reshape"] = _PyCall(lambda a, shape, **k: (a if isinstance(a, NDArr) else NDArr(a)).reshape(shape))
     it.overrides["np.array2string"] = _PyCall(lambda x, **k: str(x))
